@@ -1705,31 +1705,65 @@ def tables_c20(run):
     for k, nm_ in (('m', 'motion'), ('f', 'force')):
         if not seen[k]:
             run.error('R16: SpatialM6.cross: %s branch not found' % nm_)
-    # SE3 * spatial vector: Ad @ for motion, Ad.T @ for force
-    cr = Ctx(run, 'spatialvector:SpatialVector.__rmul__')
-    okm = okf = False
-    for r, fs in cr.returns():
-        e = canon(cr.fi, r.value, inline=True)
-        m = any(fc[1] and matches('isinstance(right, SpatialM6)', fc[2].ast) is not None for fc in fs)
-        nf = any((not fc[1]) and matches('isinstance(right, SpatialM6)', fc[2].ast) is not None for fc in fs)
-        PM = ('right.__class__(left.Ad() @ right.A)', 'right.__class__([left.Ad() @ x for x in right.data])')
-        PF = ('right.__class__(left.Ad().T @ right.A)', 'right.__class__([left.Ad().T @ x for x in right.data])')
-        if m:
-            okm = any(matches(p_, e) is not None for p_ in PM)
-            if not okm and any(matches(p_, e) is not None for p_ in PF):
-                run.violation(RULE, cr.f.key, 'motion transform', 'motion vectors must be mapped by Ad @ v; found the force form %s' % src(r.value, 60), f=cr.f, node=r)
-            elif not okm:
-                run.error('R16: SpatialVector.__rmul__: motion branch returns an unrecognised form %s' % src(r.value, 60))
-        elif nf:
-            okf = any(matches(p_, e) is not None for p_ in PF)
-            if not okf and any(matches(p_, e) is not None for p_ in PM):
-                run.violation(RULE, cr.f.key, 'force transform', 'force vectors must be mapped by Ad^T @ f; found the motion form %s' % src(r.value, 60), f=cr.f, node=r)
-            elif not okf:
-                run.error('R16: SpatialVector.__rmul__: force branch returns an unrecognised form %s' % src(r.value, 60))
-    if okm:
-        run.holds(RULE, cr.f.key, 'motion transform', 'Ad @ v for SpatialM6', f=cr.f)
-    if okf:
-        run.holds(RULE, cr.f.key, 'force transform', 'Ad^T @ f otherwise', f=cr.f)
+    # SE3 * spatial vector: Ad @ for motion, Ad.T @ for force -- decided per CONCRETE class through the method each one resolves to
+    # (an override on one force class does not cover its sibling)
+    prog = run.prog
+    from ..cfg import pure_locals, _subst_pure
+    m6, f6 = prog.classes.get('SpatialM6'), prog.classes.get('SpatialF6')
+    concrete = [c for c in prog.classes.values() if (m6 in c.mro or f6 in c.mro) and c not in (m6, f6) and not prog.subclasses(c, strict=True)]
+    if len(concrete) < 4:
+        run.error('R16: fewer than 4 concrete spatial vector classes found (anchor not found in the current source)')
+    cache = {}
+    for c in sorted(concrete, key=lambda c: c.name):
+        motion = m6 in c.mro
+        _, g = prog.lookup_member(c, '__rmul__')
+        label = '%s transform of %s' % ('motion' if motion else 'force', c.name)
+        if g is None or not hasattr(g, 'node'):
+            run.error('R16: %s has no __rmul__' % c.name)
+            continue
+        if g.key not in cache:
+            cache[g.key] = Ctx(run, g.key)
+        cr = cache[g.key]
+        rightp, leftp = cr.f.params[0], cr.f.params[1]
+        env = pure_locals(cr.f.node)
+        PM = ('_C([%s.Ad() @ _X for _X in %s.data])' % (leftp, rightp), '_C(%s.Ad() @ %s.A)' % (leftp, rightp))
+        PF = ('_C([%s.Ad().T @ _X for _X in %s.data])' % (leftp, rightp), '_C(%s.Ad().T @ %s.A)' % (leftp, rightp))
+        verdicts = []
+        for r, fs in cr.returns():
+            # is this return reachable for an operand of class c?  (isinstance facts on the vector operand, by the class model)
+            feasible = True
+            for fc in fs:
+                b = matches('isinstance(%s, _K)' % rightp, fc[2].ast)
+                if b is None:
+                    continue
+                ks = b['_K'].elts if isinstance(b['_K'], ast.Tuple) else [b['_K']]
+                kcs = [prog.classes.get(k.id) for k in ks if isinstance(k, ast.Name)]
+                if len(kcs) != len(ks) or any(k is None for k in kcs):
+                    continue
+                isin = any(k in c.mro for k in kcs)
+                if isin != fc[1]:
+                    feasible = False
+            if not feasible:
+                continue
+            e = canon(cr.fi, _subst_pure(r.value, env), inline=True)
+            if any(matches(p_, e) is not None for p_ in PM):
+                verdicts.append(('motion', r))
+            elif any(matches(p_, e) is not None for p_ in PF):
+                verdicts.append(('force', r))
+            else:
+                verdicts.append((None, r))
+        if not verdicts:
+            run.error('R16: %s.__rmul__ (%s): no value return reachable for this class' % (c.name, g.key))
+            continue
+        for kind, r in verdicts:
+            if kind is None:
+                run.error('R16: %s: %s returns an unrecognised form %s' % (label, g.key, src(r.value, 60)))
+            elif (kind == 'motion') == motion:
+                run.holds(RULE, g.key, label, 'Ad @ v' if motion else 'Ad^T @ f', f=cr.f, node=r)
+            else:
+                run.violation(RULE, g.key, label, '%s resolves SE3 * vector to %s, which maps the value by %s; a %s vector must be mapped by %s' % (
+                    c.name, g.key.split(':')[1], 'Ad @ x' if kind == 'motion' else 'Ad^T @ x', 'motion' if motion else 'force',
+                    'Ad @ v' if motion else 'Ad^T @ f (the dual transform)'), f=cr.f, node=r)
     # spatial inertia block
     ci = Ctx(run, 'spatialvector:SpatialInertia.__init__')
     blk = None
@@ -2154,6 +2188,34 @@ def tables_c06(run):
                     run.violation(RULE, f.key, 'route ' + k, 'the %s route is not guarded by the matching isSE/isSO test' % k, f=f, node=r)
                 else:
                     run.holds(RULE, f.key, 'route ' + k, 'R p + t through homogeneous lift-multiply-project' if k.startswith('SE') else 'R p', f=f, node=r)
+    # batched spelling of the sequence x matrix routes: einsum over the stacked pose matrices (k, r, c) and the points (c, k)
+    for (r, e) in rets:
+        for c in ast.walk(e):
+            if not (isinstance(c, ast.Call) and isinstance(c.func, ast.Name) and c.func.id == 'einsum' and len(c.args) == 3
+                    and isinstance(c.args[0], ast.Constant) and isinstance(c.args[0].value, str)):
+                continue
+            stack = c.args[1]
+            if not any(matches(p_, stack) is not None for p_ in ('array(left.A)', 'asarray(left.A)', 'stack(left.A)', 'array(left.data)', 'stack(left.data)')) \
+                    or matches('right', c.args[2]) is None:
+                continue
+            spec = c.args[0].value.replace(' ', '')
+            try:
+                ins, out = spec.split('->')
+                a, b = ins.split(',')
+            except ValueError:
+                continue
+            node = cfg.node_of(r)
+            fs = facts.get(node.id, frozenset())
+            so = any(fc[1] and matches('left.isSO', fc[2].ast) is not None for fc in fs)
+            k = 'SO(n) sequence x matrix' if so else 'SE(n) sequence x matrix'
+            if len(a) == 3 and len(b) == 2 and len(out) == 2 and len(set(a)) == 3 and b[1] == a[0] and out[1] == a[0]:
+                if b[0] == a[2] and out[0] == a[1] and so:
+                    found[k] = True
+                    run.holds(RULE, f.key, 'route ' + k, 'einsum %s: column k of the result is R_k p_k' % spec, f=f, node=r)
+                elif b[0] == a[1] and out[0] == a[2]:
+                    found[k] = True
+                    run.violation(RULE, f.key, 'route ' + k, 'einsum %s contracts the ROW index of each pose matrix with the point: column k of the '
+                                  'result is R_k^T p_k, the inverse rotation' % spec, f=f, node=r)
     for k, ok in found.items():
         if not ok:
             run.error('R16: SMPose.__mul__: route "%s" has no recognised form' % k)
